@@ -1,5 +1,5 @@
 from .. import common, mir
-from ..rules import c11, c12
+from ..rules import c11, c12, c11_r3
 
 
 def run(tier, replay=None):
@@ -14,4 +14,5 @@ def run(tier, replay=None):
         sub = common.Report("C12", tier)
         logs = c12.run(sub, crate, cfg)
         c11.run_cover(rep, crate, cfg, logs)
+        c11_r3.run(rep, crate, cfg)
     return rep.finish("other", "gating, dispatch, exact cover", "./check C11 %s" % tier)
